@@ -91,6 +91,37 @@ var c05Entries = []c05Entry{
 		return c05DecodeChunked(b, &v, 3)
 	}, true, true},
 	{"Decode(1-byte reads):[]string", func(b []byte) bool { var v []string; return c05DecodeChunked(b, &v, 1) }, true, true},
+	// Decoder options that select other scanners (UseNumber: numbers are kept as text)
+	{"Decode(UseNumber):iface", func(b []byte) bool {
+		d := gojson.NewDecoder(bytes.NewReader(b))
+		d.UseNumber()
+		var v any
+		if d.Decode(&v) != nil {
+			return false
+		}
+		var x any
+		return d.Decode(&x) == io.EOF
+	}, true, false},
+	{"Decode(UseNumber,DisallowUnknownFields):struct{A}", func(b []byte) bool {
+		d := gojson.NewDecoder(bytes.NewReader(b))
+		d.UseNumber()
+		d.DisallowUnknownFields()
+		var v struct {
+			A any `json:"a"`
+		}
+		if d.Decode(&v) != nil {
+			return false
+		}
+		var x any
+		return d.Decode(&x) == io.EOF
+	}, true, true},
+	{"Unmarshal:struct{N Number}", func(b []byte) bool {
+		var v struct {
+			N gojson.Number `json:"n"`
+			L []gojson.Number
+		}
+		return gojson.Unmarshal(b, &v) == nil
+	}, false, true},
 	// option and context entry points (they share pooled decoder contexts with the ones above and
 	// with each other: the first-win entries run directly before the context ones)
 	{"UnmarshalNoEscape:iface", func(b []byte) bool { var v any; return gojson.UnmarshalNoEscape(b, &v) == nil }, false, false},
@@ -149,6 +180,11 @@ func c05Explain(b []byte, e *c05Entry) string {
 	}
 	var rx []rn
 	for _, r := range oracle.RelaxNames {
+		// a relaxation that stands for the skip scanners explains only entry points whose
+		// destination skips something
+		if r.R&oracle.RSkip != 0 && !e.skips {
+			continue
+		}
 		if r.Scope == "buf" || (r.Scope == "skip" && e.skips) || (e.stream && (r.Scope == "stream" || r.Scope == "skip")) {
 			rx = append(rx, rn{r.Name, r.R})
 		}
